@@ -100,6 +100,21 @@ def usable(c):
     return True
 
 
+def base_rowlen(cases):
+    """how the implementation's row length compares with the digits the largest entry needs"""
+    res = {"cases": 0, "exact": 0, "one_longer": 0, "short": 0, "other": 0}
+    for c in cases:
+        if c["k"] != "base":
+            continue
+        b, m, ln = c["b"], max([abs(x) for x in c["d"]] + [0]), c["out"]["sh"][-1]
+        need = 0
+        while m and b ** need <= m:
+            need += 1
+        res["cases"] += 1
+        res["exact" if ln == need else "one_longer" if ln == need + 1 else "short" if ln < need else "other"] += 1
+    return res
+
+
 def run(r):
     quick = r.tier == "quick"
     r.trusted += TRUSTED_COMMON + [
@@ -150,7 +165,7 @@ def run(r):
     errs = sum(1 for c in used if c["k"].startswith("un") and c["out"] is None)
     r.coverage["tie"] = {"kind": "C", "cases": len(used), "skipped": len(cases) - len(used), "by_kind": kinds, "mismatches": len(mism),
                          "mismatch_by_kind": mk, "decoder_error_cases": errs,
-                         "base_cases_with_exact_row_length_checked": kinds.get("base", 0),
+                         "base_row_length": base_rowlen(used),
                          "binary_encoded_bytes": sum(len(c["out"]["d"]) for c in used if c["k"] == "binary" and c["out"])}
     r.log("tie: %d cases %s, %d mismatches %s" % (len(used), kinds, len(mism), mk))
     for k in ("bits", "utf8", "binary", "bytes"):
